@@ -485,6 +485,17 @@ func (p *c19Pkg) routesIn(routeType string) ([]c19Route, error) {
 	return out, nil
 }
 
+// relOf: repository-relative name of the file that holds fd (the overlay's replacement file may be named differently).
+func (p *c19Pkg) relOf(fd *ast.FuncDecl) string {
+	f := p.fileOf[fd]
+	for rel, af := range p.files {
+		if af == f {
+			return rel
+		}
+	}
+	return ""
+}
+
 func genC19(g *Gen) error {
 	g.Header(c19Httpd+"*.go", "app/**/*.go (AddRoutes callers)", "lib/util/lifted/influx/meta/{userinfo,authorizer}.go", "lib/util/lifted/influx/influxql/ast.go")
 	g.GenNS()
@@ -738,7 +749,7 @@ func genC19(g *Gen) error {
 		return true
 	})
 	g.StrList("parseCredentialsMethods", methods)
-	rets, err := g.Returns(c19Httpd+filepath.Base(p.g.fset.File(pc.Pos()).Name()), "ParseCredentials")
+	rets, err := g.Returns(p.relOf(pc), "ParseCredentials")
 	if err == nil {
 		var short []string
 		for _, r := range rets {
@@ -836,7 +847,7 @@ func genC19(g *Gen) error {
 		arms = append(arms, [2]string{label, fmt.Sprintf("errors=%d unguarded=%d", errs, unguarded)})
 	}
 	g.PairList("authenticateArms", arms)
-	fp, err := g.Fingerprint(c19Httpd+filepath.Base(p.g.fset.File(au.Pos()).Name()), "authenticate")
+	fp, err := g.Fingerprint(p.relOf(au), "authenticate")
 	if err != nil {
 		return err
 	}
